@@ -18,7 +18,7 @@ assignments / device states — induction over the lists, no bounds.
 | a violating program is rejected, naming file and line       | `conflicting_definitions_rejected`, `violation_rejected_with_position`, `analyze_outcomes` |
 | range merging                                               | `ranges_partition`                                      |
 | batch write ≡ one at a time                                 | `batch_set_eq_single`, `start_with_params_eq_single`    |
-| batch read ≡ one at a time, same values                     | `batch_get_eq_single`, `batch_get_eq_single_on_parsed_program` |
+| batch read ≡ one at a time, same values                     | `batch_get_eq_single`, `batch_get_eq_single_on_parsed_program`; outside the set-of-names domain: `batch_get_any_names`, `batch_get_drops_repeated_spelling`; error paths: second halves of `batch_set_eq_single` / `batch_get_eq_single` |
 | touches exactly the bound registers                         | `touches_exactly_bound_registers`                       |
 | parsing yields a result                                     | `parse_terminates` (unconditional, ≤ `length fs + 1` opens), `include_cycle_parsed_once` |
 -/
@@ -416,6 +416,98 @@ example :
       | .ok r => (dictGet r "E4".toList).map Val.num == some 4008 && r.length == 6
       | .error _ => false) = true := by
   refine ⟨by decide +kernel, by decide +kernel, by decide +kernel⟩
+
+/-- **batch_get_any_names.** What `get_par_multiple` does for *every* list of bound names — repeats and
+several spellings of one parameter included (outside the "set of names" of `batch_get_eq_single`):
+registers stay untouched; every returned entry is correct (its key is one of the given names and its value
+is the content of the register that name is bound to); and every requested register is returned under at
+least one of the given spellings.  What can differ from reading one at a time is only *which spellings*
+appear as keys: for an array element only the last spelling survives (`batch_get_drops_repeated_spelling`). -/
+theorem batch_get_any_names (b : Dict Str Desc) (dv : Dev) (names : List Str)
+    (hb : ∀ n ∈ names, (lookupCI b n).isSome) :
+    ∃ dvB resB, getParMultiple b dv names = ⟨dvB, .ok resB⟩ ∧ SameRegs dvB dv ∧
+      (∀ k v, dictGet resB k = some v → k ∈ names ∧ ∃ r, lookupCI b k = some r ∧ v = dv.readReg r) ∧
+      (∀ n ∈ names, ∃ k ∈ names, lookupCI b k = lookupCI b n ∧
+        dictGet resB k = (lookupCI b n).map dv.readReg) := by
+  obtain ⟨st', p1, p2, p3, p4, p5, _⟩ := getPhase1_spec b names { dev := dv, result := [], pdata := [] } hb
+  have pend0 : ∀ d e, pendGet ([] : Dict Nat (Dict Nat Str)) d e = none := by
+    intro d e; simp [pendGet, dictGet]
+  have pres : ∀ d e n, pendGet st'.pdata d e = some n → n ∈ names ∧ lookupCI b n = some (.elem d e) := by
+    intro d e n h
+    rcases p4 d e n h with h1 | h1
+    · exact h1
+    · simp only at h1; rw [pend0] at h1; simp at h1
+  have pinj : ∀ d e d' e' k, pendGet st'.pdata d e = some k → pendGet st'.pdata d' e' = some k → d = d' ∧ e = e' := by
+    intro d e d' e' k h1 h2
+    have a1 := (pres d e k h1).2
+    have a2 := (pres d' e' k h2).2
+    rw [a1] at a2
+    injection a2 with a2
+    injection a2 with a3 a4
+    exact ⟨a3, a4⟩
+  obtain ⟨dvB, resB, a1, a2, a3, a4⟩ := getArrays_spec st'.pdata (sortNat (dictKeys st'.pdata)) st'.dev st'.result
+    (keys_bound _) pinj
+  refine ⟨dvB, resB, by simp [getParMultiple, p1, a1], a2.trans p2, ?_, ?_⟩
+  · intro k v hk
+    by_cases hex : ∃ d e, pendGet st'.pdata d e = some k
+    · obtain ⟨d, e, hde⟩ := hex
+      have hr := pres d e k hde
+      rw [a3 d e k (mem_keys_of_pendGet _ d e k hde) hde] at hk
+      injection hk with hk
+      exact ⟨hr.1, .elem d e, hr.2, by rw [← hk, p2.data]; rfl⟩
+    · have hnot : ∀ d e, d ∈ sortNat (dictKeys st'.pdata) → pendGet st'.pdata d e ≠ some k :=
+        fun d e _ hc => hex ⟨d, e, hc⟩
+      rw [a4 k hnot, p3 k] at hk
+      by_cases hc : k ∈ names ∧ ∃ r, lookupCI b k = some r ∧ r.isElem = false
+      · rw [if_pos hc] at hk
+        obtain ⟨hkn, r, hr, _⟩ := hc
+        rw [hr] at hk
+        simp only [Option.map_some] at hk
+        injection hk with hk
+        exact ⟨hkn, r, hr, hk.symm⟩
+      · rw [if_neg hc] at hk
+        simp [dictGet] at hk
+  · intro n hn
+    have hbn := hb n hn
+    cases hl : lookupCI b n with
+    | none => rw [hl] at hbn; simp at hbn
+    | some r =>
+      cases r with
+      | elem d e =>
+        obtain ⟨n', hn'⟩ := Option.isSome_iff_exists.1 (p5 d e ⟨n, hn, hl⟩)
+        have hr := pres d e n' hn'
+        refine ⟨n', hr.1, hr.2, ?_⟩
+        rw [a3 d e n' (mem_keys_of_pendGet _ d e n' hn') hn', p2.data]
+        rfl
+      | par i =>
+        have hnot : ∀ d e, d ∈ sortNat (dictKeys st'.pdata) → pendGet st'.pdata d e ≠ some n := by
+          intro d e _ hc
+          have := (pres d e n hc).2
+          rw [hl] at this; simp at this
+        refine ⟨n, hn, by rw [hl], ?_⟩
+        rw [a4 n hnot, p3 n]
+        have : n ∈ names ∧ ∃ r, lookupCI b n = some r ∧ r.isElem = false := ⟨hn, _, hl, rfl⟩
+        rw [if_pos this, hl]
+      | fpar i =>
+        have hnot : ∀ d e, d ∈ sortNat (dictKeys st'.pdata) → pendGet st'.pdata d e ≠ some n := by
+          intro d e _ hc
+          have := (pres d e n hc).2
+          rw [hl] at this; simp at this
+        refine ⟨n, hn, by rw [hl], ?_⟩
+        rw [a4 n hnot, p3 n]
+        have : n ∈ names ∧ ∃ r, lookupCI b n = some r ∧ r.isElem = false := ⟨hn, _, hl, rfl⟩
+        rw [if_pos this, hl]
+
+/-- the one observable difference outside the set-of-names domain (a constant example, replayed by the
+harness): asked for `e1` and `E1` (one array element), the batch returns only the key `E1`, the one-at-a-time
+fold returns both; for a Par both return both -/
+theorem batch_get_drops_repeated_spelling :
+    let b : Dict Str Desc := [("e1".toList, .elem 2 1), ("p".toList, .par 1)]
+    (match (getParMultiple b Dev.init ["e1".toList, "E1".toList, "p".toList, "P".toList]).res,
+           (getFold b ["e1".toList, "E1".toList, "p".toList, "P".toList] Dev.init []).res with
+      | .ok rb, .ok rf => dictKeys rb == ["p".toList, "P".toList, "E1".toList] &&
+                          dictKeys rf == ["e1".toList, "E1".toList, "p".toList, "P".toList]
+      | _, _ => false) = true := by decide +kernel
 
 /-- **touches_exactly_bound_registers.** A successful batch read or batch write performs device calls that
 touch (element-wise, merged ranges expanded) *exactly* the registers bound to the given names: nothing
